@@ -33,12 +33,13 @@ RULE = ("JSON: generated arrays of 0-3 dims (float without NaN, int, str, bool v
         "objects with their snapshots.  Non-trivial: >= 2 variables with differing dim sets, or an append step, or str data / labels, or "
         "attrs on >= 2 levels.")
 ASSUMPTIONS = [
+    "a variable whose metadata hold missing_value is created with that fill value and reads back with the reserved attribute _FillValue in addition (netCDF convention): tolerated",
     "vlib/fake_netcdf4 stands in for netCDF4-python + libnetcdf (orthogonal indexing, vlen str, unlimited dims, masked never-written cells, NETCDF3 restrictions); nothing is shown about the real C library",
     "reads return plain ndarrays when no cell is missing (netCDF4 < 1.4 / set_always_mask(False) behaviour)",
     "attrs compared with array equality (netCDF returns 1-element arrays as scalars and lists as arrays)",
     "variable names are disjoint from dimension names; appended variables reuse the file's labels on shared dimensions",
 ]
-MANDATORY = ["nc:rewrite-dataset", "nc:rewrite-variable", "json", "json:str-values", "json:0d", "nc:dataset-write", "nc:dataset-append", "nc:append-a", "nc:append-a+", "nc:open_nc-set", "nc:attr-write", "nc:NETCDF3",
+MANDATORY = ["json:non-representable-metadata-first", "json:non-representable-metadata-last", "nc:rewrite-dataset", "nc:rewrite-variable", "json", "json:str-values", "json:0d", "nc:dataset-write", "nc:dataset-append", "nc:append-a", "nc:append-a+", "nc:open_nc-set", "nc:attr-write", "nc:NETCDF3",
              "nc:str-labels", "nc:str-values", "nc:nan", "nc:int32", "nc:0d", "nc:attrs-3-levels", "nc:unsorted-labels", "nc:dims-differ"]
 
 
@@ -61,7 +62,8 @@ attr_names = st.sampled_from(["units", "long_name", "comment", "scale", "history
 def json_case(draw):
     spec = draw(gen.array_spec(min_dims=0, max_dims=3, min_size=1, max_size=3, vks="fisb"))
     spec["attrs"] = draw(st.dictionaries(attr_names, json_attr, max_size=3))
-    return {"mode": "json", "spec": spec}
+    # metadata that JSON cannot represent (as a file read leaves them: NumPy integers, arrays), stored before or after the representable ones
+    return {"mode": "json", "spec": spec, "nonjson": draw(st.sampled_from([None, None, "first", "last"]))}
 
 
 @st.composite
@@ -87,6 +89,9 @@ def nc_variable(draw, dimlabels, numeric_only, name):
     if vk == "f" and draw(st.booleans()):
         spec["nan"] = draw(st.lists(st.integers(0, n - 1), min_size=1, max_size=max(1, n // 2), unique=True))
     spec["attrs"] = draw(st.dictionaries(attr_names, nc_attr, max_size=2))
+    if vk in ("f", "i", "i32") and draw(st.integers(0, 5)) == 0:
+        # the conventional missing_value metadata (a number that this variable's own data never take; -1 may well be a label or a value elsewhere)
+        spec["attrs"]["missing_value"] = -1 if vk != "f" else -1.0
     if len(dims) >= 2 and "dtype" not in spec:
         spec["hist"] = draw(st.sampled_from([{"mode": "none"}, {"mode": "none"}, {"mode": "transposed"}, {"mode": "fortran"}, {"mode": "warm"}]))     # storage layout of the values
     return [name, spec]
@@ -179,6 +184,9 @@ def attr_equal(got, exp):
 
 def attrs_match(got, exp, what, sig):
     got = dict(got)
+    if "missing_value" in exp and "_FillValue" in got and "_FillValue" not in exp and attr_equal(got["_FillValue"], exp["missing_value"]):
+        # netCDF convention: a variable created with its missing_value as fill value carries the reserved attribute _FillValue as well
+        got.pop("_FillValue")
     check(sorted(got.keys()) == sorted(exp.keys()), "attrs-keys", {"what": what, "got": core.jsonable(got), "expected": core.jsonable(exp)}, sig)
     for k, v in exp.items():
         check(attr_equal(got[k], v), "attrs-value", {"what": what, "key": k, "got": core.jsonable(got[k]), "expected": core.jsonable(v)}, sig)
@@ -251,6 +259,11 @@ def run_json(case):
     da = core.env.import_dimarray()
     spec = case["spec"]
     a = core.build(spec)
+    if case.get("nonjson"):
+        extra = {"count_": np.int64(3), "set_": {1, 2}}
+        keep = dict(a.attrs)
+        a.attrs.clear()
+        a.attrs.update(dict(list(extra.items()) + list(keep.items())) if case["nonjson"] == "first" else dict(list(keep.items()) + list(extra.items())))
     snap = core.snapshot(a)
     what = "from_json(to_json(a)) dims=%s labels=%s vk=%s attrs=%s" % (spec["dims"], spec["labels"], spec["vk"], core.jsonable(spec.get("attrs", {})))
     sig = {"mode": "json"}
@@ -262,9 +275,11 @@ def run_json(case):
         # labels are restored as what they were: float labels stay floats (0.0 is not 0), strings stay strings
         ka, kb = ("s" if la.dtype.kind in "OUS" else la.dtype.kind), ("s" if lb.dtype.kind in "OUS" else lb.dtype.kind)
         check(ka == kb or len(la) == 0, "json-label-kind", {"what": what, "dim": d_, "got": str(lb.dtype), "expected": str(la.dtype)}, sig)
-    check(core.attrs_equal(b.attrs, spec.get("attrs", {})), "json-attrs", {"what": what, "got": core.jsonable(b.attrs), "expected": core.jsonable(spec.get("attrs", {}))}, sig)
+    got_attrs = {k_: v_ for k_, v_ in dict(b.attrs).items() if k_ not in ("count_", "set_")}     # (the statement speaks of the JSON-representable entries only)
+    check(core.attrs_equal(got_attrs, spec.get("attrs", {})), "json-attrs", {"what": what + (" [+ non-JSON entries stored %s]" % case["nonjson"] if case.get("nonjson") else ""),
+                                                                              "got": core.jsonable(b.attrs), "expected": core.jsonable(spec.get("attrs", {}))}, sig)
     core.expect_unchanged(a, snap, what, sig)
-    cl = ["json"] + (["json:str-values"] if spec["vk"] == "s" else []) + (["json:0d"] if not spec["dims"] else [])
+    cl = ["json"] + (["json:non-representable-metadata-" + case["nonjson"]] if case.get("nonjson") and spec.get("attrs") else []) + (["json:str-values"] if spec["vk"] == "s" else []) + (["json:0d"] if not spec["dims"] else [])
     return {"classes": cl, "nontrivial": bool(spec["dims"])}
 
 
